@@ -171,16 +171,22 @@ class Interp:
         work: list[list[bool]] = [[]]
         while work:
             prefix = work.pop()
-            if self.paths_run >= self.max_paths * 4 or len(outcomes) >= self.max_paths:
+            if len(outcomes) >= self.max_paths:
                 raise AnalysisError(f"path bound {self.max_paths} exceeded in {qual}")
+            nested = getattr(self, "_exploring", 0)
+            if not nested:
+                av.BOUNDS.clear()
+                av.DEFS.clear()
+            self._exploring = nested + 1
+            try:
+                made = make_args()  # may itself explore (children rebuilt by evaluating their callbacks)
+            finally:
+                self._exploring = nested
             self.path = Path(prefix)
             self.depth = 0
             self.steps = 0
             self.trace = []
-            av.BOUNDS.clear()
-            av.DEFS.clear()
             self.paths_run += 1
-            made = make_args()
             self_obj, args, kwargs = made
             try:
                 val = self.call_qual(qual, self_obj, list(args), dict(kwargs))
@@ -544,6 +550,8 @@ class Frame:
                 obj.factory = v
             else:
                 setattr(obj, "attr_" + name, v)
+        elif isinstance(obj, (str, SStr, int, float, SNum, tuple, list)) or obj is None:
+            raise PyExc("AttributeError", (f"'{pytype_of(obj)}' object has no attribute '{name}'",))
         else:
             raise AnalysisError(f"attribute store on {obj!r}")
 
@@ -834,7 +842,13 @@ class Frame:
             return val
         if isinstance(obj, dict):
             kk = I.dict_key(obj, k)
-            if isinstance(kk, (SStr, SNum, SObj)):
+            if isinstance(kk, SStr):
+                if dict.__contains__(obj, kk):
+                    return dict.__getitem__(obj, kk)
+                if I.decide(lambda: kk.member_of([x for x in obj.keys() if isinstance(x, (str, SStr))]), f"{kk.describe()} in dict keys"):
+                    raise AnalysisError(f"symbolic key {kk!r} may equal an existing key of a concrete dict")
+                raise PyExc("KeyError", (kk,), node)
+            if isinstance(kk, (SNum, SObj)):
                 raise AnalysisError(f"symbolic key {kk!r} on concrete dict")
             try:
                 if kk in obj:
